@@ -250,6 +250,39 @@ def tlc_trace(ctx, module, events_path, shards=1, timeout=1800, per_shard_min=20
     return bads
 
 
+def tlc_trace_stateful(ctx, module, events_path, reset_op, shards=8, timeout=1800):
+    """like tlc_trace, but shards are cut only in front of `reset_op` events (the trace spec keeps state between them)"""
+    events = read_ndjson(events_path)
+    if not events:
+        return []
+    groups = []
+    for e in events:
+        if e.get("op") == reset_op or not groups:
+            groups.append([])
+        groups[-1].append(e)
+    shards = max(1, min(shards, len(groups)))
+    buckets = [[] for _ in range(shards)]
+    sizes = [0] * shards
+    for g in sorted(groups, key=len, reverse=True):
+        k = sizes.index(min(sizes))
+        buckets[k].extend(g)
+        sizes[k] += len(g)
+    bads = []
+    for b in buckets:
+        if b:
+            pth = ctx.fresh("st") + ".ndjson"
+            write_ndjson(pth, b)
+            ctx._pending = getattr(ctx, "_pending", []) + [pth]
+    # run the buckets in parallel through tlc_trace's machinery: one TLC per bucket file
+    import concurrent.futures
+    with concurrent.futures.ThreadPoolExecutor(max_workers=shards) as ex:
+        futs = [ex.submit(tlc_trace, ctx, module, p, 1, timeout) for p in ctx._pending]
+        for f in futs:
+            bads += f.result()
+    ctx._pending = []
+    return bads
+
+
 def note_events(ctx, events_path, key=lambda e: e.get("v", e.get("in")), trivial=lambda e: False, nsamples=3):
     for e in read_ndjson(events_path):
         if not trivial(e):
